@@ -184,6 +184,10 @@ func TestSim(t *testing.T) {
 				tape = NewSeedTape(uint64(enum))
 			} else {
 				gen = func() json.RawMessage { return p.Gen(idx, -1, job.Tier) }
+				if fixed := os.Getenv("VERIF_FIXED_SCENARIO"); fixed != "" {
+					// development aid: one hand-written scenario under many tapes
+					gen = func() json.RawMessage { return json.RawMessage(fixed) }
+				}
 				tape = NewSeedTape(idx)
 			}
 			t0 := time.Now()
